@@ -34,6 +34,9 @@ pub enum Shape {
     Mutated { values: Vec<ra::V>, flips: Vec<(u16, u8)> },
     /// arbitrary bytes
     Raw(Vec<u8>),
+    /// `head` (e.g. a container header) followed by `unit` repeated `n` times: long runs of one byte
+    /// value or of one small structure (a stray end marker, an empty ECMA array with a huge count, …)
+    Run { head: Vec<u8>, unit: Vec<u8>, n: u32 },
 }
 
 #[derive(Clone, Debug, Serialize, Deserialize)]
@@ -181,6 +184,17 @@ pub fn build(c: &Case) -> Vec<u8> {
             b = r.clone();
             b.truncate(cap);
         }
+        Shape::Run { head, unit, n } => {
+            b.extend_from_slice(head);
+            b.truncate(cap);
+            if !unit.is_empty() {
+                let n = (*n as usize).min((cap - b.len()) / unit.len());
+                b.reserve(n * unit.len());
+                for _ in 0..n {
+                    b.extend_from_slice(unit);
+                }
+            }
+        }
     }
     if c.close {
         // innermost value, then the closers from the inside out
@@ -227,6 +241,7 @@ pub fn eval(c: &Case) -> Verdict {
         Shape::WideObject { .. } => "wide-object",
         Shape::Mutated { .. } => "mutated-valid-encoding",
         Shape::Raw(_) => "raw-bytes",
+        Shape::Run { .. } => "run-of-one-unit",
     });
     obs.class(if outcome.0 { "decoded-ok" } else { "rejected" });
     obs.class_if(deep, "depth-100-or-more");
@@ -258,6 +273,45 @@ pub fn shape() -> BoxedStrategy<Shape> {
         1 => (1u32..50_000).prop_map(|n| Shape::WideObject { n }),
         3 => (gen::amf_values(AmfCfg::WIRE, 5), proptest::collection::vec((any::<u16>(), any::<u8>()), 0..6)).prop_map(|(values, flips)| Shape::Mutated { values, flips }),
         2 => proptest::collection::vec(any::<u8>(), 0..400).prop_map(Shape::Raw),
+        3 => (run_head(), run_unit(), prop_oneof![1u32..5000, 5000u32..2_000_000]).prop_map(|(head, unit, n)| Shape::Run { head, unit, n }),
+    ]
+    .boxed()
+}
+
+fn run_head() -> BoxedStrategy<Vec<u8>> {
+    prop_oneof![
+        4 => Just(vec![]),
+        1 => counts().prop_map(|c| { let mut h = vec![0x0A]; h.extend_from_slice(&c.to_be_bytes()); h }),
+        1 => Just(vec![0x03]),
+        1 => counts().prop_map(|c| { let mut h = vec![0x08]; h.extend_from_slice(&c.to_be_bytes()); h }),
+        1 => Just(vec![0x03, 0, 1, b'a']),
+    ]
+    .boxed()
+}
+
+const RUN_UNITS: &[&[u8]] = &[
+    &[0x09],
+    &[0, 0, 9],
+    &[0, 0],
+    &[0x08, 0xFF, 0xFF, 0xFF, 0xFF, 0, 0, 9],
+    &[0x08, 0, 0, 4, 0, 0, 0, 9],
+    &[0x0A, 0xFF, 0xFF, 0xFF, 0xFF],
+    &[0x0A, 0, 0, 4, 0],
+    &[0x03, 0, 0, 9],
+    &[0x03, 0, 0],
+    &[0, 1, b'a', 0x05],
+    &[0, 1, b'a', 0x03],
+    &[0, 1, b'a', 0x08, 0xFF, 0xFF, 0xFF, 0xFF],
+    &[0x02, 0xFF, 0xFF],
+    &[0x0C, 0xFF, 0xFF, 0xFF, 0xFF],
+    &[0x0B, 0, 0, 0, 0, 0, 0, 0, 0, 0, 0],
+];
+
+fn run_unit() -> BoxedStrategy<Vec<u8>> {
+    prop_oneof![
+        3 => any::<u8>().prop_map(|b| vec![b]),
+        3 => gen::pick(RUN_UNITS).prop_map(|u| u.to_vec()),
+        2 => proptest::collection::vec(any::<u8>(), 1..9),
     ]
     .boxed()
 }
@@ -276,6 +330,15 @@ fn fixed(ctx: &Ctx) -> Vec<Case> {
     }
     for kind in 0..7u8 {
         v.push(Case { shape: Shape::Flood { kind, n: u32::MAX }, close: false, cap: big });
+    }
+    // a run of every single byte value (top level), and of every listed unit at top level and inside an array
+    let run_cap: u32 = if ctx.tier == Tier::Thorough { big } else { 256 << 10 };
+    for b in 0..=255u8 {
+        v.push(Case { shape: Shape::Run { head: vec![], unit: vec![b], n: u32::MAX }, close: false, cap: run_cap });
+    }
+    for u in RUN_UNITS {
+        v.push(Case { shape: Shape::Run { head: vec![], unit: u.to_vec(), n: u32::MAX }, close: false, cap: run_cap });
+        v.push(Case { shape: Shape::Run { head: vec![0x0A, 0xFF, 0xFF, 0xFF, 0xFF], unit: u.to_vec(), n: u32::MAX }, close: false, cap: run_cap });
     }
     v.push(Case { shape: Shape::WideObject { n: u32::MAX }, close: true, cap: big });
     v.push(Case { shape: Shape::CountOnly { ecma: false, count: 0xFFFF_FFFF, values: 0 }, close: false, cap: big });
